@@ -629,10 +629,11 @@ MANIFEST = {
             "for every pair of samples cpu_percent's value equals 100*busy/total over clipped deltas (busy = user+nice+system+irq+softirq+steal, "
             "guest not double counted, idle/iowait not busy), lies in [0,100], and a counter that went backwards contributes zero; "
             "cpu_times_percent's shares lie in [0,100] always and the non-guest shares add up to exactly 100 whenever at least one CPU-second "
-            "elapsed (refuted with a witness below one second: known finding); every script of calls by any threads gives each thread the "
-            "result against its own previous sample (history-based specification), for blocking and non-blocking forms; Process.cpu_percent "
-            "is 100*cpu/wall since the object's previous call, 0 on the first, ValueError for negative intervals (refuted when cpu_count() "
-            "changes between calls). The model is tied to the code by running the real psutil over fake /proc/stat files, a scripted clock and "
+            "elapsed (refuted with a witness below one second: known finding); calls by other threads (any number, blocking or "
+            "not) neither touch a thread's samples nor change the result of its next call (frame theorem over the four per-thread maps); Process.cpu_percent "
+            "is 100*cpu/wall since the object's previous call for every sequence of calls on any number of objects and any cpu_count() answers "
+            "(history-based specification; the skew under a changing CPU count was repaired by /repo commit 8e92b46), 0 on the first call, "
+            "ValueError for negative intervals. The model is tied to the code by running the real psutil over fake /proc/stat files, a scripted clock and "
             "real threads on generated cases.",
     "note": "Trusted: Coq kernel + vm_compute; hand-written model coq/C07/Model.v (tied by the correspondence run only); /proc/stat format in "
             "coq/C07/Spec.v; harness; CPython floats and round() (compared within one rounding step). Proof covers the model, sampling covers "
